@@ -61,7 +61,10 @@ def exc_site(e: BaseException):
     """Innermost frames inside lsst.daf.relation (function names), for recognisers."""
     tb = traceback.extract_tb(e.__traceback__)
     frames = [f"{f.filename.split(REPO_MARK)[-1]}:{f.name}" for f in tb if REPO_MARK in f.filename]
-    return frames[-4:]
+    out = frames[-4:]
+    if any(f.filename.endswith("relsim/world.py") and f.name in ("transfer", "materialize") for f in tb):
+        out = ["<hook>"] + out
+    return out
 
 
 def is_injected(e: BaseException, fired) -> bool:
@@ -412,7 +415,9 @@ class Run(ExtraOps):
         site = exc_site(e)
         phase = "execute"
         s = " ".join(site)
-        if "_processor.py" in s:
+        if "<hook>" in s:
+            phase = "hook:" + ("compile" if ("sql/_engine.py" in s.split("_processor.py")[-1]) else "execute")
+        elif "_processor.py" in s:
             phase = "process"
         elif "sql/_engine.py" in s or "sql/_select.py" in s:
             phase = "compile"
@@ -450,7 +455,11 @@ class Run(ExtraOps):
             rows = []
         elif special == "identity":
             cols, rows = [], [[]]
-        rel = self.w.make_leaf(lid, op["eng"], cols, rows, op.get("bounds", "exact"), op.get("payload", "simrows"), special)
+        self.w.fault.suspended = True       # creating the environment is not part of the system under test
+        try:
+            rel = self.w.make_leaf(lid, op["eng"], cols, rows, op.get("bounds", "exact"), op.get("payload", "simrows"), special)
+        finally:
+            self.w.fault.suspended = False
         mv = M.m_leaf(lid, op["eng"], cols, rows)
         ent = Entry(rel, mv, op, [])
         self.pool.append(ent)
